@@ -103,6 +103,11 @@ def fingerprint_url(url, unsplit=True, strip_suffix=False, platform_aware=False)
             platform_aware=platform_aware,
             infer_redirection=False,
         )
+
+        # NOTE: a url that cannot be parsed is handed back as is
+        if not isinstance(splitted, SplitResult):
+            return splitted
+
         _, netloc, path, query, fragment = splitted
 
         user, password, hostname, port = (
